@@ -341,7 +341,7 @@ fn cli_defaults(ctx: &mut Ctx) {
                 if with_flag {
                     args.push("--removal-marker-target-name=zz9".to_string());
                 }
-                for q in probes.iter().filter(|q| !q.contains('"')) {
+                for q in probes.iter().map(|q| q.as_str()).chain(["zz9", "zz"]).filter(|q| !q.contains('"')) {
                     let src = format!("a<!-- <removal-marker name=\"{q}\"> -->X<!-- </removal-marker> -->b");
                     let out = match run_cli(&args, Some(src.as_bytes()), &[], None) {
                         Ok(o) => o,
@@ -352,7 +352,7 @@ fn cli_defaults(ctx: &mut Ctx) {
                     };
                     n += 1;
                     let text_out = String::from_utf8_lossy(&out.stdout).to_string();
-                    let member = set.contains(&q.as_str()) || (with_flag && q == "zz9");
+                    let member = set.contains(&q) || (with_flag && q == "zz9");
                     let expect = if member { "ab".to_string() } else { src.clone() };
                     if out.status != 0 || text_out != expect {
                         ctx.failure = Some(Failure { broken: false, sub: "cli-target-file".into(), case: json!({"file_text": text, "flag": with_flag, "stdin": src, "expect_stdout": expect}), tape: None, message: format!("chiritori with the target file {:?}{} on {:?}: exit {} output {:?}, expected {:?}", text, if with_flag { " and --removal-marker-target-name=zz9" } else { "" }, src, out.status, text_out, expect) });
